@@ -117,6 +117,33 @@ func c19ZErr(err error) string {
 // nexthop groups, labels, weights, backup nexthops, SR-TE colour, opaque data. ZAPI 5 and 6 use
 // the same zapi_route layout in both directions, so decode(serialize(v)) must give v back.
 
+// the awkward address classes every address-valued field is also generated with: unspecified,
+// all-ones, loopback, link-local and (IPv6) IPv4-mapped addresses
+func c19Awkward(r *vRand, six bool) netip.Addr {
+	if !six {
+		return netip.AddrFrom4([][4]byte{{0, 0, 0, 0}, {255, 255, 255, 255}, {127, 0, 0, 1}, {169, 254, byte(r.next()), byte(r.next())}, {224, 0, 0, 5}}[r.intn(5)])
+	}
+	a := [16]byte{}
+	switch r.intn(6) {
+	case 0: // ::
+	case 1: // ::ffff:a.b.c.d (IPv4-mapped)
+		a[10], a[11] = 0xff, 0xff
+		binary.BigEndian.PutUint32(a[12:], r.u32()|1<<24)
+	case 2: // ::ffff:0.0.0.0
+		a[10], a[11] = 0xff, 0xff
+	case 3: // link-local
+		a[0], a[1] = 0xfe, 0x80
+		binary.BigEndian.PutUint64(a[8:], r.next())
+	case 4:
+		for i := range a {
+			a[i] = 0xff
+		}
+	case 5:
+		a[15] = 1
+	}
+	return netip.AddrFrom16(a)
+}
+
 func c19Addr(r *vRand, v6 bool, plen uint8) netip.Addr {
 	// octets behind the prefix length are zero (they are not on the wire); bits inside the last
 	// octet are arbitrary, and no octet before it is zero, so that a stale scratch buffer shows
@@ -125,6 +152,14 @@ func c19Addr(r *vRand, v6 bool, plen uint8) netip.Addr {
 		n = 16
 	}
 	b := make([]byte, n)
+	if r.chance(25) { // an awkward address, cut to the prefix length
+		copy(b, c19Awkward(r, v6).AsSlice())
+		for i := (int(plen) + 7) / 8; i < n; i++ {
+			b[i] = 0
+		}
+		a, _ := netip.AddrFromSlice(b)
+		return a
+	}
 	for i := 0; i < (int(plen)+7)/8; i++ {
 		b[i] = byte(1 + r.intn(255))
 	}
@@ -136,6 +171,11 @@ func c19Nexthop(r *vRand, v uint8, sw Software, v6 bool, msg MessageFlag, backup
 	frr := func(min float64) bool { return v == 6 && sw.name == "frr" && sw.version >= min }
 	n := Nexthop{VrfID: uint32(r.pick(0, 1, 7, int(r.u32())))}
 	gate := func(six bool) netip.Addr {
+		if r.chance(25) {
+			if a := c19Awkward(r, six); !a.IsUnspecified() { // an unspecified gate prints as "no gate"
+				return a
+			}
+		}
 		if six {
 			var a [16]byte
 			binary.BigEndian.PutUint64(a[:], r.next()|1<<61)
@@ -204,7 +244,7 @@ func c19RouteValue(r *vRand, v uint8, sw Software) *IPRouteBody {
 	if v6 {
 		width = 128
 	}
-	plen := uint8(r.pick(0, 1, 7, 8, 9, 23, 24, 31, 32, r.intn(width+1), r.intn(width+1)))
+	plen := uint8(r.pick(0, 1, 7, 8, 9, 23, 24, 31, 32, width, width, 96, 97, r.intn(width+1), r.intn(width+1)))
 	if int(plen) > width {
 		plen = uint8(width)
 	}
@@ -389,6 +429,9 @@ func c19RegisterRoundTrip(o *vOut, dog *c19Dog, r *vRand, v uint8, fl string) {
 			binary.BigEndian.PutUint64(a[8:], r.next())
 			n.Family, n.Prefix = syscall.AF_INET6, netip.AddrFrom16(a)
 		}
+		if r.chance(30) {
+			n.Prefix = c19Awkward(r, n.Family == syscall.AF_INET6)
+		}
 		val.Nexthops = append(val.Nexthops, n)
 	}
 	want := str(val)
@@ -422,6 +465,104 @@ func c19RegisterRoundTrip(o *vOut, dog *c19Dog, r *vRand, v uint8, fl string) {
 	}
 }
 
+// bodies gobgp only RECEIVES (nexthop update, nexthop / import lookup reply, interface address,
+// router id): wire octets built by hand around an address of every class; the decoded address
+// must be those very octets (in particular: as wide as its address family says)
+func c19DecodeOnlyBodies(o *vOut, dog *c19Dog, r *vRand) {
+	v := uint8(2 + r.intn(5))
+	sw := NewSoftware(v, "")
+	six := r.chance(60)
+	var addr netip.Addr
+	if r.chance(60) {
+		addr = c19Awkward(r, six)
+	} else {
+		addr = c19Addr(r, six, map[bool]uint8{false: 32, true: 128}[six])
+	}
+	ab := addr.AsSlice()
+	fam := uint8(syscall.AF_INET)
+	if six {
+		fam = syscall.AF_INET6
+	}
+	be32 := func(x uint32) []byte { b := make([]byte, 4); binary.BigEndian.PutUint32(b, x); return b }
+	check := func(kind string, wire []byte, decode func() ([]byte, error)) {
+		var got []byte
+		var err error
+		if dog.run(kind, wire, func() string { got, err = decode(); return "" }) == "panic" {
+			o.fail("zapi-body-panic:"+kind, map[string]any{"version": v, "bytes": c19Hex(wire)})
+			return
+		}
+		if err != nil {
+			o.stat("recvbody_"+kind+"_rejected", 1)
+			return
+		}
+		o.stat("recvbody_"+kind+"_ok", 1)
+		if !bytes.Equal(got, ab) {
+			o.fail(fmt.Sprintf("zapi-body-roundtrip:%s:v%d:fields", kind, v), map[string]any{"bytes": c19Hex(wire), "address_on_wire": c19Hex(ab), "address_decoded": c19Hex(got), "family": fam})
+		}
+	}
+	// NEXTHOP_UPDATE
+	{
+		var w []byte
+		if v == 6 { // frr7.5 and newer: message flags first
+			w = append(w, 0, 0, 0, 0)
+		}
+		w = append(w, 0, fam, byte(len(ab)*8))
+		w = append(w, ab...)
+		if v > 4 {
+			w = append(w, byte(routeConnect), 0, 0)
+		}
+		if v > 3 {
+			w = append(w, 0)
+		}
+		w = append(w, be32(r.u32())...)
+		w = append(w, 0) // no nexthops
+		check("nexthop_update", w, func() ([]byte, error) {
+			b := &NexthopUpdateBody{API: nexthopUpdate.ToEach(v, sw)}
+			err := b.decodeFromBytes(w, v, sw)
+			return b.Prefix.Prefix.AsSlice(), err
+		})
+	}
+	// IPv6 / IPv4 nexthop lookup reply (ZAPI 2 and 3)
+	if v < 4 {
+		api := zapi3IPv4NexthopLookup
+		if six {
+			api = zapi3IPv6NexthopLookup
+		}
+		w := append(append([]byte(nil), ab...), be32(r.u32())...)
+		w = append(w, 0)
+		check("lookup", w, func() ([]byte, error) {
+			b := &lookupBody{api: api}
+			err := b.decodeFromBytes(w, v, sw)
+			return b.addr.AsSlice(), err
+		})
+	}
+	// INTERFACE_ADDRESS_ADD
+	{
+		w := append(be32(r.u32()), byte(r.intn(4)), fam)
+		w = append(w, ab...)
+		w = append(w, byte(r.intn(len(ab)*8+1)))
+		w = append(w, ab...)
+		check("interface_address", w, func() ([]byte, error) {
+			b := &interfaceAddressUpdateBody{}
+			err := b.decodeFromBytes(w, v, sw)
+			if err == nil && !bytes.Equal(b.destination, ab) {
+				return b.destination, nil
+			}
+			return b.prefix, err
+		})
+	}
+	// ROUTER_ID_UPDATE
+	{
+		w := append([]byte{fam}, ab...)
+		w = append(w, byte(len(ab)*8))
+		check("router_id", w, func() ([]byte, error) {
+			b := &routerIDUpdateBody{}
+			err := b.decodeFromBytes(w, v, sw)
+			return b.prefix, err
+		})
+	}
+}
+
 var c19Flavours = map[uint8][]string{
 	2: {"", "quagga"}, 3: {"", "quagga"}, 4: {"", "frr4", "frr3"},
 	5: {"", "frr5", "frr4", "cumulus"},
@@ -446,11 +587,17 @@ func TestVerifC19(t *testing.T) {
 		return b
 	}
 	v4 := func() netip.Addr {
+		if r.chance(20) {
+			return c19Awkward(r, false)
+		}
 		var a [4]byte
 		binary.BigEndian.PutUint32(a[:], r.u32())
 		return netip.AddrFrom4(a)
 	}
 	v6 := func() netip.Addr {
+		if r.chance(25) {
+			return c19Awkward(r, true)
+		}
 		var a [16]byte
 		binary.BigEndian.PutUint64(a[:], r.next()|1<<61)
 		binary.BigEndian.PutUint64(a[8:], r.next())
@@ -590,6 +737,8 @@ func TestVerifC19(t *testing.T) {
 			gv := uint8(3 + r.intn(4))
 			c19RegisterRoundTrip(o, dog, r, gv, c19Flavours[gv][r.intn(len(c19Flavours[gv]))])
 		}
+
+		c19DecodeOnlyBodies(o, dog, r)
 
 		// ---- messages the daemon constructs, per version and flavour
 		v := uint8(2 + r.intn(5))
